@@ -46,7 +46,7 @@ def persist_replay_rule(ctx, rid):
     # record content: each key stores the like-named parameter / attribute
     for k, v in written.items():
         t = norm(v)
-        if k in ("combos", "cases", "fn_args"):
+        if k in ("combos", "cases", "fn_args", "constants"):
             good = t == k
         elif k == "farmer":
             good = t == "farmer_pkl"
